@@ -1,6 +1,8 @@
 import IndicatorVerif.Model.Registry
 import IndicatorVerif.Model.Stream
 import IndicatorVerif.Spec.Indicators
+import IndicatorVerif.Model.Strategies
+import IndicatorVerif.Model.StrategyOps
 /-
   ivdriver: runs the executable models on cases received over a line protocol (stdin → stdout).
   One case per line, one result per line.  Floats travel as 16-digit hex bit patterns.
@@ -219,9 +221,62 @@ def runBstF (ops : String) : String :=
   let (_, outs) := (splitList ops ",").foldl step (BTree.nil, [])
   "ok " ++ ",".intercalate outs.reverse
 
+/-! ### STRAT: base strategies on OHLCV snapshots -/
+def actOfFloat (f : Float) : Int := if f == 1.0 then 1 else if f == -1.0 then -1 else 0
+
+def runStrat (name ns fs streams : String) : String :=
+  match parseNats ns, parseFloats fs, parseStreams streams with
+  | some ns, some fs, some env =>
+    match Strat.lookupS (α := Float) name ns fs with
+    | none => "ERR unknown-strategy"
+    | some e =>
+      let acts := (Sig.evalL env e.sig).map actOfFloat
+      s!"ok idle={e.idle} off={showOptNat (Sig.off e.sig)} need={Sig.need e.sig} | {showInts acts}"
+  | _, _, _ => "ERR parse"
+
+/-! ### TREE: combinators / decorators over scripted action words, postfix program -/
+def parseWords (s : String) : Option (List (List Action)) :=
+  if s == "_" then some [] else
+  (s.splitOn ";").mapM (fun w => (parseInts w).map (fun l => l.map Action.ofInt))
+
+def popN (k : Nat) (st : List (List Action)) : Option (List (List Action) × List (List Action)) :=
+  if st.length < k then none else some ((st.take k).reverse, st.drop k)
+
+def runTree (prog words closings : String) : String :=
+  match parseWords words, parseFloats closings with
+  | some ws, some cl =>
+    let step (st : Option (List (List Action))) (tok : String) : Option (List (List Action)) :=
+      match st with
+      | none => none
+      | some stack =>
+        match tok.splitOn ":" with
+        | ["w", i] => (i.toNat?).bind (fun k => (ws[k]?).map (fun w => w :: stack))
+        | ["And", k] => (k.toNat?).bind (fun k => (popN k stack).map (fun (args, rest) => Action.andS args :: rest))
+        | ["Or", k] => (k.toNat?).bind (fun k => (popN k stack).map (fun (args, rest) => Action.orS args :: rest))
+        | ["Majority", k] => (k.toNat?).bind (fun k => (popN k stack).map (fun (args, rest) => Action.majorityS args :: rest))
+        | ["Split"] => (popN 2 stack).map (fun (args, rest) => Action.splitS (args.getD 0 []) (args.getD 1 []) :: rest)
+        | ["Agree"] => (popN 2 stack).map (fun (args, rest) => Action.agreeS (args.getD 0 []) (args.getD 1 []) :: rest)
+        | ["Inverse"] => (popN 1 stack).map (fun (args, rest) => Action.inverseS (args.getD 0 []) :: rest)
+        | ["NoLoss"] => (popN 1 stack).map (fun (args, rest) => StratOps.noLossS (args.getD 0 []) cl :: rest)
+        | ["StopLoss", pct] =>
+          (floatOfHex pct).bind (fun p => (popN 1 stack).map (fun (args, rest) => StratOps.stopLossS p (args.getD 0 []) cl :: rest))
+        | ["Normalize"] => (popN 1 stack).map (fun (args, rest) => Action.normalize (args.getD 0 []) :: rest)
+        | ["Denormalize"] => (popN 1 stack).map (fun (args, rest) => Action.denormalize (args.getD 0 []) :: rest)
+        | _ => none
+    match (prog.splitOn ",").foldl step (some []) with
+    | some [res] =>
+      let acts := res.map Action.toInt
+      let out := StratOps.outcome cl res
+      let tx := Action.countTransactions res
+      s!"ok {showInts acts} | {showFloats out} | {showInts (tx.map Int.ofNat)}"
+    | _ => "ERR bad-program"
+  | _, _ => "ERR parse"
+
 def handle (line : String) : String :=
   match (line.trimAscii.toString).splitOn " " with
   | [id, "IND", name, ns, fs, streams] => id ++ " " ++ runInd name ns fs streams
+  | [id, "STRAT", name, ns, fs, streams] => id ++ " " ++ runStrat name ns fs streams
+  | [id, "TREE", prog, words, closings] => id ++ " " ++ runTree prog words closings
   | [id, "HELPER", name, ps, streams] => id ++ " " ++ runHelper name ps streams
   | [id, "HELPERF", name, ps, streams] => id ++ " " ++ runHelperF name ps streams
   | [id, "RING", _typ, cap, ops] => id ++ " " ++ runRing cap ops
